@@ -172,6 +172,10 @@ def sessStep (s : S) (f : List String) : S × List String :=
     (s, evs ++ res ++ extra)
   if s.noClient && ["rs", "readall", "pal", "peo", "call", "quit", "close", "disconnect", "counters", "txn", "backoff", "sig"].contains (f.headD "") then
     (s, ["noclient"]) else
+  -- a Close or Disconnect waits behind a writer that stands at a scripted gate, and now the connection is lost or the reader moves
+  -- on: who gets the write semaphore first is a race the sequential model does not decide
+  if s.held.isSome && !s.closers.isEmpty && ["brk", "feed", "rs"].contains (f.headD "") then
+    (s, ["unsupported connection event while a closer waits behind a parked writer"]) else
   match f with
   | ["bufsize", n] => match n.toNat? with
     | some n => ({ s with bufSize := n }, [])
